@@ -52,9 +52,9 @@ SPECS = {
     'C14': dict(level='translation_validation', engines=['GEN'], rules=['G-AUTO', 'G-LAYOUT'],
                 stats=['auto_trait_queries'],
                 what='for every record type: Send/Sync (rustc trait solver) iff every field type is'),
-    'C15': dict(level='translation_validation', engines=['GEN'], rules=['G-SERDE'],
+    'C15': dict(level='translation_validation', engines=['GEN'], rules=['G-SERDE', 'G-HISTORY'],
                 stats=['kind:serialize', 'kind:visit_seq', 'kind:deserialize'],
-                what='serialiser and visitor tables agree: arity, order, types; visitor feeds the same-named constructor field; wrong length / missing element rejected; decoded values dropped on early return'),
+                what='serialiser and visitor tables agree: arity, order, types; fields listed in the order of the requests; visitor feeds the same-named constructor field; wrong length / missing element rejected; decoded values dropped on early return'),
     'C16': dict(level='translation_validation', engines=['GEN'], rules=['G-CLONE'],
                 stats=['kind:clone', 'kind:clone_from'],
                 what='clone builds every field from the same-named accessor exactly once; clone_from assigns every field through the same-named accessor pair; no leak/double drop on a panicking field clone'),
@@ -63,7 +63,7 @@ SPECS = {
     'C18': dict(level='other', engines=['SRC'], rules=['H-'],
                 what='size_of/align_of/type_name only in the host resolver, table registration and the name printer; every stored TypeInfo flows from the resolver / override / copied datum; lookups return the stored entry unmodified; serde derives symmetric'),
     'C19': dict(level='other', engines=['SRC'], rules=['N-DET'],
-                what='no hash-ordered collection, random source, clock, environment read or address-as-order in non-test code of truc'),
+                what='no hash-ordered collection, random source, clock, environment read, address used as identity or order, interior-mutable field or shared static in non-test code of truc'),
     'C20': dict(level='other', engines=['SRC'], rules=['V-'],
                 what='per source variant: removals, then additions, then exactly one close; removed ids go through the id map; added ids recorded in it; the variant map receives (source id -> returned id)'),
 }
